@@ -63,8 +63,14 @@ let answer_of (a : string) : answer =
   | "ax" -> AAcc (AccErr (errno_of arg))
   | "sel" ->
     (match String.split_on_char '/' arg with
-     | [r; w; e; h] -> ASel (fds_of r, fds_of w, fds_of e, fds_of h)
+     | [r; w; e] -> ASel (fds_of r, fds_of w, fds_of e)
      | _ -> failwith "bad sel")
+  | "p2" ->
+    (* p2:<fd><flags>.<fd><flags>...   flags: subset of i o p h *)
+    if arg = "" then APoll2 [] else
+    APoll2 (List.map (fun t ->
+      let has c = String.contains_from t 1 c in
+      ((fd_of t.[0], (has 'i', has 'o')), (has 'p', has 'h'))) (String.split_on_char '.' arg))
   | "ex" -> AExpt (XRaise (errno_of arg))
   | "en" -> AExpt XNonzero
   | "ez" -> AExpt XZero
@@ -88,7 +94,9 @@ let answer_s = function
   | ACall (Some e) -> "cx:" ^ errno_s e
   | AAcc (AccConn c) -> "ac:" ^ chan_s c
   | AAcc (AccErr e) -> "ax:" ^ errno_s e
-  | ASel (r, w, e, h) -> Printf.sprintf "sel:%s/%s/%s/%s" (fds_s r) (fds_s w) (fds_s e) (fds_s h)
+  | ASel (r, w, e) -> Printf.sprintf "sel:%s/%s/%s" (fds_s r) (fds_s w) (fds_s e)
+  | APoll2 l -> "p2:" ^ String.concat "." (List.map (fun ((f, (i, o)), (p, h)) ->
+      fd_s f ^ (if i then "i" else "") ^ (if o then "o" else "") ^ (if p then "p" else "") ^ (if h then "h" else "")) l)
   | AExpt (XRaise e) -> "ex:" ^ errno_s e
   | AExpt XNonzero -> "en"
   | AExpt XZero -> "ez"
@@ -123,7 +131,7 @@ let labels_s ls =
   if l = [] then "-" else String.concat "," l
 
 let kind_of_instr = function
-  | ISelect _ -> "select" | IAcqO _ -> "acqO" | ITryAcqO _ -> "tryO" | IRelO _ | KRelO _ -> "relO"
+  | ISelect _ -> "select" | ISelWait _ -> "selwait" | IAcqO _ -> "acqO" | ITryAcqO _ -> "tryO" | IRelO _ | KRelO _ -> "relO"
   | IAcqR _ -> "acqR" | IRelR _ | KRelR _ -> "relR" | IWaitO _ -> "wait" | IWake _ -> "wake"
   | INotifyO _ -> "notify" | IRecv _ -> "recv" | IFlush _ -> "send" | IExpt _ -> "soerr"
   | ISockClose _ -> "sclose" | IAccept -> "accept" | ISetOpts _ -> "setopt" | IInitGso _ -> "gso"
@@ -215,7 +223,7 @@ let macro g mode s t kind answers =
 
 (* accept and construct channel c from a state whose I/O thread is at the top of a poll turn *)
 let preset g s c =
-  let toks = [ANone; ASel ([FL], [], [], []); ANone; AAcc (AccConn c); ACall None; ANone; ACall None; ACall None; ANone; ANone] in
+  let toks = [ANone; ANone; (if g.use_poll2 then APoll2 [((FL, (true, false)), (false, false))] else ASel ([FL], [], [])); ANone; AAcc (AccConn c); ACall None; ANone; ACall None; ACall None; ANone; ANone] in
   List.fold_left (fun s a -> match step g s (IO, a) with Some (s', _) -> s' | None -> failwith "preset") s toks
 
 let parse_tok tok =
@@ -253,20 +261,20 @@ let menu g faults (s : state) t : answer list =
   match next_instr s t with
   | Some (i, false) when wants s t i ->
     (match i with
-     | ISelect (r, w, e) ->
+     | ISelWait (r, w, e) ->
        let chans = List.filter (function FC _ -> true | _ -> false) in
        if g.use_poll2 then
-         [ASel ([], [], [], [])]
-         @ List.map (fun f -> ASel ([f], [], [], [])) r
-         @ List.map (fun f -> ASel ([], [f], [], [])) w
-         @ (if faults then List.map (fun f -> ASel ([f], [], [f], [f])) (chans r)
-                           @ List.map (fun f -> ASel ([], [], [], [f])) (chans e) else [])
+         [APoll2 []]
+         @ List.map (fun f -> APoll2 [((f, (true, false)), (false, false))]) r
+         @ List.map (fun f -> APoll2 [((f, (false, true)), (false, false))]) w
+         @ (if faults then List.map (fun f -> APoll2 [((f, (true, false)), (true, true))]) (chans r)
+                           @ List.map (fun f -> APoll2 [((f, (false, false)), (false, true))]) (chans e) else [])
        else
-         [ASel ([], [], [], [])]
-         @ List.map (fun f -> ASel ([f], [], [], [])) r
-         @ List.map (fun f -> ASel ([], [f], [], [])) w
-         @ (if faults then List.map (fun f -> ASel ([], [], [f], [])) (chans e) else [])
-         @ (if List.length r + List.length w > 1 then [ASel (r, w, [], [])] else [])
+         [ASel ([], [], [])]
+         @ List.map (fun f -> ASel ([f], [], [])) r
+         @ List.map (fun f -> ASel ([], [f], [])) w
+         @ (if faults then List.map (fun f -> ASel ([], [], [f])) (chans e) else [])
+         @ (if List.length r + List.length w > 1 then [ASel (r, w, [])] else [])
      | IAccept ->
        (if not s.chA.accepted then [AAcc (AccConn A)] else if not s.chB.accepted then [AAcc (AccConn B)] else [])
        @ (if faults then [AAcc (AccErr EINVAL); AAcc (AccErr EWOULDBLOCK)] else [AAcc (AccErr EWOULDBLOCK)])
